@@ -21,7 +21,7 @@ import random
 from typing import Any
 
 from hv.gen import family
-from hv.gen.programs import Gen, World, blocks_of, expected, run_steps, shape_key
+from hv.gen.programs import Gen, World, blocks_of, creation_envs, expected, run_steps, shape_key
 from hv.loop import run_virtual
 from hv.record import Recorder
 from hv.sched import Chooser, Sched
@@ -39,7 +39,7 @@ ASSUMPTIONS = [
     "which of several same-type instances supplied by the same block is returned is unspecified (any of them is accepted)",
     "equality, not identity, of the returned instance is judged; ctx.updated outside any scope is not generated",
 ]
-MINIMUMS = {"monitor:lookup": 50000, "monitor:lookup-default": 50000, "shadowing_lookups": 3000, "explicit_default_wins": 3000, "explicit_default_of_another_class_wins": 500, "missing_state": 3000, "disposable_supplied": 300, "programs_with_prepared_scopes": 300}
+MINIMUMS = {"monitor:lookup": 50000, "monitor:lookup-default": 50000, "shadowing_lookups": 3000, "explicit_default_wins": 3000, "explicit_default_of_another_class_wins": 500, "missing_state": 3000, "disposable_supplied": 300, "programs_with_prepared_scopes": 300, "monitor:lookup-in-completion": 5000, "completion_lookups_outside_every_scope": 500}
 JOBS = {"quick": 4, "thorough": 16}
 OPTIMIZED_SHARDS = {"quick": 2, "thorough": 16}  # the same cases once more under `python -O`
 LEVEL_TEXT = (
@@ -105,7 +105,7 @@ def prepare_some(prog: list[dict[str, Any]], rng: random.Random, p: float = 0.35
             anchor = top if top is not None else s["body"]
             if depth >= 1 and s["kind"] in ("ascope", "sscope") and not s.get("disposables") and rng.random() < p:
                 s["prepared"] = True
-                prep = {"op": "prepare", "block": {k: s[k] for k in ("kind", "name", "supply")}}
+                prep = {"op": "prepare", "block": {k: s[k] for k in ("kind", "name", "supply", "completion") if k in s}}
                 (prog if rng.random() < 0.5 else anchor).insert(0, prep)
                 changed = True
             walk(s["body"], anchor, depth + 1)
@@ -131,6 +131,28 @@ def judge(R: Recorder, prog: list[dict[str, Any]], W: World, status: str, err: A
         R.case(case, nontrivial=False)
         R.monitor("lookup", False, where={"kind": "program-failed", "error": type(err).__name__}, detail=f"program ended {status}: {err!r}", case=case)
         return
+    # ---- lookups made by completion callbacks: the creator's code, run after the scope - they see what the place of `ctx.scope(...)` saw
+    envs = creation_envs(prog)
+    for b in blocks_of(prog):
+        if not b.get("completion") or b["name"] not in envs:
+            continue
+        view = W.completion_views.get(b["name"])
+        if view is None:
+            R.monitor("lookup-in-completion", False, where={"kind": "completion-not-invoked"}, detail=f"completion callback of {b['name']} never ran although the program ended", case=case)
+            continue
+        env = envs[b["name"]]
+        for tname in family.NAMES:
+            want = env.lookup(tname)
+            got = view[tname]
+            if want[0] == "val":
+                ok = got[0] == "val" and got[1][0] == tname and got[1][1] in want[1]
+            elif want[0] == "default":
+                ok = got == ("val", (tname, 0))
+            else:
+                ok = got == ("exc", want[1])
+            R.count("completion_lookups_outside_every_scope", want == ("exc", "MissingContext"))
+            R.monitor("lookup-in-completion", ok, where={"kind": "wrong-lookup-in-completion", "expected": want[0] if want[0] != "exc" else want[1], "callback": b["completion"], "scope": b["kind"]},
+                      detail=f"completion callback of {b['name']} ({b['completion']}): ctx.state({tname}) -> {got!r}; the place that created the scope sees {want!r}", case=case)
     disp_uids = {u for b in blocks_of(prog) for d in (b.get("disposables") or []) for _, u in d["yield"]}
     for pid, e in exp.items():
         obs = W.probes.get(pid)
@@ -202,6 +224,13 @@ def judge(R: Recorder, prog: list[dict[str, Any]], W: World, status: str, err: A
         R.sample({"program": prog, "probes": {str(k): {"state": v["state"]} for k, v in list(W.probes.items())[:3]}}, kind="program")
 
 
+def with_completions(prog: list[dict[str, Any]], rng: random.Random, p: float = 0.4) -> list[dict[str, Any]]:
+    for b in blocks_of(prog):
+        if b["kind"] in ("ascope", "sscope") and rng.random() < p:
+            b["completion"] = rng.choice(["sync", "async", "async-object", "sync-falsy"])
+    return prog
+
+
 def run_batch(R: Recorder, programs: Any, rng: random.Random) -> None:
     root = logging.getLogger()
     old_level = root.level
@@ -212,10 +241,13 @@ def run_batch(R: Recorder, programs: Any, rng: random.Random) -> None:
             loop.idle_hook = sched.idle
             W = World(loop, sched)
             W.tg_enabled = False
+            W.completion_lookups = True
             root.addHandler(W.capture)
             status, err = "ok", None
             try:
                 await loop.create_task(run_steps(W, prog, rng))
+                for _ in range(4):
+                    await asyncio.sleep(0)  # asynchronous completion callbacks are tasks started after the scope completed
             except BaseException as exc:  # noqa: BLE001
                 status, err = "raised", exc
             finally:
@@ -241,13 +273,17 @@ def run(R: Recorder, tier: str, seed: int, shard: int, nshards: int) -> None:
             if i % nshards == shard:
                 yield p
                 if i % 3 == 0:
-                    q = copy.deepcopy(p)
+                    q = with_completions(copy.deepcopy(p), random.Random(i), p=0.5)
                     if prepare_some(q, random.Random(i), p=0.7):
                         R.count("programs_with_prepared_scopes")
                         yield q
+                if i % 3 == 1:
+                    yield with_completions(copy.deepcopy(p), random.Random(i), p=0.7)
         for _ in range(RANDOM[tier] // nshards):
             g = Gen(rng)
             prog = g.program(max_blocks=rng.choice([3, 6, 12]), max_depth=6)
+            if rng.random() < 0.5:
+                with_completions(prog, rng)
             if rng.random() < 0.4 and prepare_some(prog, rng):
                 R.count("programs_with_prepared_scopes")
             yield prog
